@@ -13,7 +13,8 @@ const prec = 320
 
 type bv [3]*big.Float
 
-func nf() *big.Float            { return new(big.Float).SetPrec(prec) }
+func nf() *big.Float { return new(big.Float).SetPrec(prec) }
+
 // NaN/Inf from the implementation become 1e300 so that every comparison against the oracle fails loudly
 func bf(x float64) *big.Float {
 	if x != x || x > 1e300 || x < -1e300 {
@@ -47,10 +48,10 @@ func vdot(a, b bv) *big.Float {
 func vcross(a, b bv) bv {
 	return bv{bsub(bmul(a[1], b[2]), bmul(a[2], b[1])), bsub(bmul(a[2], b[0]), bmul(a[0], b[2])), bsub(bmul(a[0], b[1]), bmul(a[1], b[0]))}
 }
-func vsub(a, b bv) bv          { return bv{bsub(a[0], b[0]), bsub(a[1], b[1]), bsub(a[2], b[2])} }
-func vneg(a bv) bv             { return bv{nf().Neg(a[0]), nf().Neg(a[1]), nf().Neg(a[2])} }
-func vnorm2(a bv) *big.Float   { return vdot(a, a) }
-func vnorm(a bv) *big.Float    { return bsqrt(vnorm2(a)) }
+func vsub(a, b bv) bv              { return bv{bsub(a[0], b[0]), bsub(a[1], b[1]), bsub(a[2], b[2])} }
+func vneg(a bv) bv                 { return bv{nf().Neg(a[0]), nf().Neg(a[1]), nf().Neg(a[2])} }
+func vnorm2(a bv) *big.Float       { return vdot(a, a) }
+func vnorm(a bv) *big.Float        { return bsqrt(vnorm2(a)) }
 func vscale(a bv, s *big.Float) bv { return bv{bmul(a[0], s), bmul(a[1], s), bmul(a[2], s)} }
 func vunit(a bv) bv {
 	n := vnorm(a)
